@@ -2,7 +2,7 @@ import CentrifugeVerif.DriverLib
 import CentrifugeVerif.Model.Limits
 /-!
 Driver for C37 (channel limit / channel name length).  One op per line:
-  `reset limit= maxlen=` · `sub ch= len= kind=<r|m> async=<0|1> ok=<0|1>` · `complete i=` ·
+  `reset limit= maxlen=` · `sub ch= len= kind=<r|m|p> async=<0|1> ok=<0|1>` · `complete i=` · `page ch= len=` ·
   `unsub ch=` · `ssub ch=`
 Output: `res=<…> n=<len(channels)> m=<len(mapSubscribing)> subs=<client-side subscriptions>`.
 -/
@@ -18,6 +18,8 @@ structure Pending where
 structure St where
   s : LState := { limit := 0, maxLen := 0 }
   pending : List Pending := []
+  /-- paged map subscribes that served their first state page: channel ↦ generation -/
+  loading : List (Nat × Nat) := []
 
 def fmt (s : LState) (res : String) : String :=
   s!"res={res} n={s.channels.length} m={s.mapSubscribing.length} subs={s.clientSubs}"
@@ -51,16 +53,25 @@ def stepLine (st : St) (line : String) : St × String :=
   | "sub" :: rest =>
     match kvNat rest "ch", kvNat rest "len", kv rest "kind", kvNat rest "async", kvNat rest "ok" with
     | some ch, some len, some kind, some async, some ok =>
+      if kind == "p" then
+        -- paged map subscribe (handler answers at once): validate, reserve, first page served
+        match step st.s (.subMapValidate ch len) with
+        | (s1, .ok _) =>
+          match step s1 (.mapReserve ch) with
+          | (s2, .ok g) => ({ st with s := s2, loading := (st.loading.filter (·.1 ≠ ch)) ++ [(ch, g)] }, fmt s2 "loading")
+          | (s2, r) => ({ st with s := s2 }, fmt s2 (resStr r))
+        | (s1, r) => ({ st with s := s1 }, fmt s1 (resStr r))
+      else
       let isMap := kind == "m"
       let (s1, r) := step st.s (if isMap then .subMapValidate ch len else .subReg ch len)
       match r with
       | .ok g =>
         let p : Pending := { ch := ch, gen := g, isMap := isMap, ok := ok != 0 }
-        if async != 0 then ({ s := s1, pending := st.pending ++ [p] }, fmt s1 "pending")
+        if async != 0 then ({ st with s := s1, pending := st.pending ++ [p] }, fmt s1 "pending")
         else let (s2, o) := finish s1 p; ({ st with s := s2 }, fmt s2 o)
       | _ =>
         let slot : Pending := { ch := ch, gen := 0, isMap := isMap, ok := false, done := true }
-        ({ s := s1, pending := if async != 0 then st.pending ++ [slot] else st.pending }, fmt s1 (resStr r))
+        ({ st with s := s1, pending := if async != 0 then st.pending ++ [slot] else st.pending }, fmt s1 (resStr r))
     | _, _, _, _, _ => (st, "bad-op")
   | "complete" :: rest =>
     match kvNat rest "i" with
@@ -69,7 +80,17 @@ def stepLine (st : St) (line : String) : St × String :=
       | some p =>
         if p.done then (st, "bad-op") else
         let (s2, o) := finish st.s p
-        ({ s := s2, pending := st.pending.set i { p with done := true } }, fmt s2 o)
+        ({ st with s := s2, pending := st.pending.set i { p with done := true } }, fmt s2 o)
+      | none => (st, "bad-op")
+    | none => (st, "bad-op")
+  | "page" :: rest =>
+    match kvNat rest "ch" with
+    | some ch =>
+      match st.loading.find? (·.1 = ch) with
+      | some (_, g) =>
+        let (s1, r) := step st.s (.mapCommit ch g)
+        ({ st with s := s1, loading := st.loading.filter (·.1 ≠ ch) },
+          fmt s1 (match r with | .ok _ => "ok" | _ => "lost"))
       | none => (st, "bad-op")
     | none => (st, "bad-op")
   | "unsub" :: rest =>
